@@ -22,10 +22,22 @@ func (v Violation) ID() string { return v.Property + "/" + v.Class + "/" + v.Key
 
 const maxEvents = 2000000
 
+// An event is stored unformatted and rendered in Finish (main goroutine, after
+// the join).  Formatting inside a task would go through fmt's sync.Pool, whose
+// Put/Get carry release/acquire semantics under the race detector: two tasks
+// logging around their operations would then look ordered, and races between
+// those operations would be masked (and, because the pool drops entries at
+// random in race mode, masked non-deterministically).
 type event struct {
-	seq  uint64
-	text string
+	seq    uint64
+	format string
+	args   []interface{}
 }
+
+// H is a byte string that renders as Hex8 when the event is finally formatted.
+type H []byte
+
+func (h H) String() string { return Hex8(h) }
 
 // Log is an append-only event list private to one task (or to the main
 // goroutine).  Private per task so that, under the race detector, harness
@@ -34,8 +46,10 @@ type event struct {
 type Log struct {
 	run   *Run
 	task  int
-	ev    []event
-	fails []Violation
+	ev      []event
+	fails   []Violation
+	failEv  []uint64
+	failFmt []event
 }
 
 // Counter ids are registered at init time; increments are norace array writes.
@@ -113,15 +127,16 @@ func (l *Log) Ev(format string, args ...interface{}) uint64 {
 	if seq > maxEvents {
 		panic("harness: runaway run (more than 2M events); a workload loop does not terminate on this tape")
 	}
-	l.ev = append(l.ev, event{seq, fmt.Sprintf(format, args...)})
+	l.ev = append(l.ev, event{seq, format, args})
 	return seq
 }
 
 // Fail records a violation of the run's property.
 func (l *Log) Fail(class, key, format string, args ...interface{}) {
-	d := fmt.Sprintf(format, args...)
-	l.fails = append(l.fails, Violation{l.run.Property, class, key, d})
-	l.Ev("VIOLATION %s/%s: %s", class, key, d)
+	seq := l.Ev("VIOLATION "+class+"/"+key+": "+format, args...)
+	l.fails = append(l.fails, Violation{l.run.Property, class, key, ""})
+	l.failEv = append(l.failEv, seq)
+	l.failFmt = append(l.failFmt, event{seq, format, args})
 }
 
 func (l *Log) Fails() []Violation { return l.fails }
@@ -141,28 +156,33 @@ func (r *Run) Finish() {
 		for _, e := range l.ev {
 			taskOf[e.seq] = l.task
 		}
+		for i := range l.fails {
+			l.fails[i].Detail = fmt.Sprintf(l.failFmt[i].format, l.failFmt[i].args...)
+		}
 		r.Violations = append(r.Violations, l.fails...)
 	}
 	sort.Slice(all, func(i, j int) bool { return all[i].seq < all[j].seq })
 	h := sha256.New()
 	var b [8]byte
-	for _, e := range all {
+	texts := make([]string, len(all))
+	for i, e := range all {
+		texts[i] = fmt.Sprintf(e.format, e.args...)
 		binary.LittleEndian.PutUint64(b[:], e.seq)
 		h.Write(b[:])
 		h.Write([]byte{byte(taskOf[e.seq])})
-		h.Write([]byte(e.text))
+		h.Write([]byte(texts[i]))
 		h.Write([]byte{0})
 	}
 	h.Sum(r.Fingerprint[:0])
 	if r.Verbose || len(r.Violations) > 0 {
 		r.Trace = make([]string, 0, len(all))
-		for _, e := range all {
+		for i, e := range all {
 			t := taskOf[e.seq]
 			who := "main"
 			if t >= 0 {
 				who = fmt.Sprintf("t%d", t)
 			}
-			r.Trace = append(r.Trace, fmt.Sprintf("%05d %-4s %s", e.seq, who, e.text))
+			r.Trace = append(r.Trace, fmt.Sprintf("%05d %-4s %s", e.seq, who, texts[i]))
 		}
 	}
 	// stable order of violations
